@@ -1,5 +1,5 @@
-(* C14 (b): the native reader applied to the emitted stream yields the fastparse conversion, for every well-formed
-   fragment tree (induction on the tree; no bound on its size). *)
+(* C14 (b): the native reader applied to the emitted stream yields nconvert, for EVERY fragment tree (induction on the
+   tree; no bound on its size, no well-formedness hypothesis).  Expressions. *)
 From Coq Require Import ZArith List String Bool Lia Arith.
 From C14 Require Import Model.
 Import ListNotations.
@@ -11,6 +11,8 @@ Proof.
   intros [l c el ec] k. unfold loc_k, read_loc. cbn [p_line p_col p_eline p_ecol].
   replace (l + (el - l)) with el by lia. replace (c + (ec - c)) with ec by lia. reflexivity.
 Qed.
+Lemma span_self : forall p, span p p = p.
+Proof. intros [a b c d]. reflexivity. Qed.
 
 Lemma loc_finish_ok : forall A (mk : pos -> A) p k, loc_finish mk (loc_k p (T END_TAG :: k)) = Some (mk p, k).
 Proof. intros. unfold loc_finish. rewrite read_loc_ok. reflexivity. Qed.
@@ -25,6 +27,8 @@ Lemma read_cmpop_ok : forall op k, read_op cmp_ops (I (cmpop_idx op) :: k) = Som
 Proof. destruct op; reflexivity. Qed.
 Lemma read_kind_ok : forall kd k, read_kind (I (argkind_idx (kind_of kd)) :: k) = Some (kind_of kd, k).
 Proof. destruct kd; reflexivity. Qed.
+Lemma nth_kind : forall k, nth_error ARG_KINDS (Z.to_nat (argkind_idx k)) = Some k.
+Proof. destruct k; reflexivity. Qed.
 
 Lemma read_kinds_ok : forall a k, read_n read_kind (len_args a) (kinds_k a k) = Some (arg_kinds a, k).
 Proof.
@@ -41,22 +45,18 @@ Proof.
   induction c; intros; cbn [len_cmps cmpidx_k cmp_strs read_n]; [reflexivity|].
   rewrite read_cmpop_ok, IHc. reflexivity.
 Qed.
+Lemma read_strs_ok : forall l k, read_n read_strtok (List.length l) (strs_k l k) = Some (l, k).
+Proof. induction l; intros; cbn [List.length strs_k read_n str_k read_strtok]; [reflexivity|]. rewrite IHl. reflexivity. Qed.
+Lemma read_aliases_ok : forall l k, read_n read_alias (List.length l) (aliases_k l k) = Some (l, k).
+Proof.
+  induction l as [|[n [a|]] l IH]; intros; cbn [List.length aliases_k read_n str_k read_alias]; [reflexivity| |];
+    rewrite IH; reflexivity.
+Qed.
 
 Lemma len_cmp_strs : forall c, List.length (cmp_strs c) = len_cmps c.
 Proof. induction c; cbn; congruence. Qed.
-Lemma len_conv_cmps : forall c, List.length (conv_cmps c) = len_cmps c.
+Lemma len_nconv_cmps : forall c, List.length (nconv_cmps c) = len_cmps c.
 Proof. induction c; cbn; congruence. Qed.
-
-(* ---------------------------------------------------------------- positions of converted nodes *)
-Lemma mepos_mk_member : forall p e a, mepos (mk_member p e a) = p.
-Proof.
-  intros. unfold mk_member. destruct e; try reflexivity. destruct e; try reflexivity.
-  destruct (String.eqb name "super"); reflexivity.
-Qed.
-Lemma mepos_group : forall rest p op a b, mepos (group p op a b rest) = p.
-Proof. destruct rest; reflexivity. Qed.
-Lemma mepos_conv : forall e, mepos (conv_e e) = epos e.
-Proof. destruct e; cbn [conv_e epos mepos]; try reflexivity; [apply mepos_mk_member | apply mepos_group]. Qed.
 
 (* ---------------------------------------------------------------- sizes (fuel) *)
 Fixpoint size_e (e : expr) : nat :=
@@ -69,74 +69,157 @@ Fixpoint size_e (e : expr) : nat :=
   | ECompare _ l c => 1 + size_e l + size_cmps c
   | EBoolOp _ _ e1 e2 rest => 1 + size_e e1 + size_e e2 + size_es rest
   | EIfExp _ t b o => 1 + size_e t + size_e b + size_e o
-  | ETuple _ es | EList _ es => 1 + size_es es
+  | ETuple _ es | EList _ es | ESet _ es => 1 + size_es es
+  | EDict _ it => 1 + size_ditems it
+  | ESubscript _ v i => 1 + size_e v + size_e i
+  | ESlice _ a b c => 1 + size_oe a + size_oe b + size_oe c
+  | EStar _ e => 1 + size_e e
+  | ELambda _ ps b => 1 + size_params ps + size_e b
   end%nat
 with size_es (es : exprs) : nat := match es with ENil => 0 | ECons e es' => size_e e + size_es es' end%nat
 with size_args (a : args) : nat := match a with ANil => 0 | ACons _ e a' => size_e e + size_args a' end%nat
-with size_cmps (c : cmps) : nat := match c with CNil => 0 | CCons _ e c' => size_e e + size_cmps c' end%nat.
+with size_cmps (c : cmps) : nat := match c with CNil => 0 | CCons _ e c' => size_e e + size_cmps c' end%nat
+with size_oe (o : oexpr) : nat := match o with ONone => 0 | OSome e => size_e e end%nat
+with size_ditems (d : ditems) : nat := match d with DNil => 0 | DCons k v r => size_oe k + size_e v + size_ditems r end%nat
+with size_params (ps : params) : nat := match ps with PNil => 0 | PCons _ _ _ _ d r => size_oe d + size_params r end%nat.
 
 Scheme expr_mut := Induction for expr Sort Prop
   with exprs_mut := Induction for exprs Sort Prop
   with args_mut := Induction for args Sort Prop
-  with cmps_mut := Induction for cmps Sort Prop.
-Combined Scheme expr_all_mut from expr_mut, exprs_mut, args_mut, cmps_mut.
+  with cmps_mut := Induction for cmps Sort Prop
+  with oexpr_mut := Induction for oexpr Sort Prop
+  with ditems_mut := Induction for ditems Sort Prop
+  with params_mut := Induction for params Sort Prop.
+Combined Scheme expr_all_mut from expr_mut, exprs_mut, args_mut, cmps_mut, oexpr_mut, ditems_mut, params_mut.
 
-Definition Pe (e : expr) := wf_e e -> forall f k, (size_e e <= f)%nat -> read_expr f (emit_e e k) = Some (conv_e e, k).
-Definition Pes (es : exprs) := wf_es es -> forall f k, (size_es es <= f)%nat ->
-  read_n (read_expr f) (len_es es) (emit_es es k) = Some (conv_es es, k).
-Definition Pargs (a : args) := wf_args a -> forall f k, (size_args a <= f)%nat ->
-  read_n (read_expr f) (len_args a) (emit_args a k) = Some (conv_args a, k).
-Definition Pcmps (c : cmps) := wf_cmps c -> forall f k, (size_cmps c <= f)%nat ->
-  read_n (read_expr f) (len_cmps c) (emit_cmps c k) = Some (conv_cmps c, k).
+Definition Pe (e : expr) := forall f k, (size_e e <= f)%nat -> read_expr f (emit_e e k) = Some (nconv_e e, k).
+Definition Pes (es : exprs) := forall f k, (size_es es <= f)%nat ->
+  read_n (read_expr f) (len_es es) (emit_es es k) = Some (nconv_es es, k).
+Definition Pargs (a : args) := forall f k, (size_args a <= f)%nat ->
+  read_n (read_expr f) (len_args a) (emit_args a k) = Some (nconv_args a, k).
+Definition Pcmps (c : cmps) := forall f k, (size_cmps c <= f)%nat ->
+  read_n (read_expr f) (len_cmps c) (emit_cmps c k) = Some (nconv_cmps c, k).
+Definition Poe (o : oexpr) := forall f k, (size_oe o <= f)%nat ->
+  read_opt (read_expr f) (emit_oe o k) = Some (nconv_oe o, k).
+Definition Pditems (d : ditems) := forall f k, (size_ditems d <= f)%nat ->
+  read_n (read_opt (read_expr f)) (len_ditems d) (emit_dkeys d k) = Some (nconv_dkeys d, k) /\
+  read_n (read_expr f) (len_ditems d) (emit_dvals d k) = Some (nconv_dvals d, k).
+Definition Pparams (ps : params) := forall f k, (size_params ps <= f)%nat ->
+  read_n (read_param_with (read_expr f)) (len_params ps) (emit_params ps k) = Some (nconv_params ps, k).
 
-Ltac red1 := cbv beta iota; rewrite ?Nat2Z.id.
+Ltac red1 := cbv beta iota; unfold nat_k; rewrite ?Nat2Z.id.
 Ltac fuel f := destruct f as [|f]; [cbn [size_e] in *; lia|].
 
 Lemma read_expr_ok_all :
-  (forall e, Pe e) /\ (forall es, Pes es) /\ (forall a, Pargs a) /\ (forall c, Pcmps c).
+  (forall e, Pe e) /\ (forall es, Pes es) /\ (forall a, Pargs a) /\ (forall c, Pcmps c) /\ (forall o, Poe o) /\
+  (forall d, Pditems d) /\ (forall ps, Pparams ps).
 Proof.
-  apply expr_all_mut; unfold Pe, Pes, Pargs, Pcmps.
-  - (* EName *) intros p id _ f k Hf. fuel f. cbn [emit_e read_expr str_k]. apply loc_finish_ok.
-  - (* EInt *) intros p v _ f k Hf. fuel f. cbn [emit_e read_expr int_k]. apply loc_finish_ok.
-  - (* EStr *) intros p s _ f k Hf. fuel f. cbn [emit_e read_expr str_k]. apply loc_finish_ok.
-  - (* EAttr *) intros p e IH a Hw f k Hf. fuel f. cbn [wf_e size_e] in *. cbn [emit_e read_expr].
-    rewrite IH by (auto; lia). cbn [str_k]. apply loc_finish_ok.
-  - (* ECall *) intros p fn IHf a IHa Hw f k Hf. fuel f. cbn [wf_e size_e] in *. destruct Hw as [Hw1 Hw2].
-    cbn [emit_e read_expr]. rewrite IHf by (auto; lia). red1.
-    rewrite IHa by (auto; lia). red1. rewrite read_kinds_ok. red1. rewrite read_names_ok. apply loc_finish_ok.
-  - (* EBin *) intros p op l IHl r IHr Hw f k Hf. fuel f. cbn [wf_e size_e] in *. destruct Hw as [Hp [Hl Hr]].
-    cbn [emit_e read_expr int_k]. rewrite read_binop_ok. rewrite IHl by (auto; lia). rewrite IHr by (auto; lia).
-    cbn [finish]. rewrite !mepos_conv. rewrite <- Hp. reflexivity.
-  - (* EUnary *) intros p op e IH Hw f k Hf. fuel f. cbn [wf_e size_e] in *.
-    cbn [emit_e read_expr int_k]. rewrite read_unop_ok. rewrite IH by (auto; lia). apply loc_finish_ok.
-  - (* ECompare *) intros p l IHl c IHc Hw f k Hf. fuel f. cbn [wf_e size_e] in *. destruct Hw as [Hl Hc].
-    cbn [emit_e read_expr]. rewrite IHl by (auto; lia). red1. rewrite read_cmpidx_ok. red1.
-    rewrite IHc by (auto; lia). red1. rewrite len_cmp_strs, len_conv_cmps, Nat.eqb_refl. apply loc_finish_ok.
-  - (* EBoolOp *) intros p op e1 IH1 e2 IH2 rest _ Hw f k Hf. fuel f. cbn [wf_e size_e] in *.
-    destruct Hw as [Hr [H1 H2]]. subst rest. cbn [emit_e read_expr int_k len_es emit_es].
-    rewrite read_boolop_ok. red1. cbn [read_n].
-    rewrite IH1 by (auto; lia). rewrite IH2 by (auto; cbn [size_es] in *; lia). red1.
-    cbn [split_last nest_bool conv_es group]. rewrite loc_finish_ok. reflexivity.
-  - (* EIfExp *) intros p t IHt b IHb o IHo Hw f k Hf. fuel f. cbn [wf_e size_e] in *. destruct Hw as [Ht [Hb Ho]].
-    cbn [emit_e read_expr]. rewrite IHb by (auto; lia). rewrite IHt by (auto; lia). rewrite IHo by (auto; lia).
-    apply loc_finish_ok.
-  - (* ETuple *) intros p es IH Hw f k Hf. fuel f. cbn [wf_e size_e] in *. cbn [emit_e read_expr].
-    rewrite Nat2Z.id. rewrite IH by (auto; lia). apply loc_finish_ok.
-  - (* EList *) intros p es IH Hw f k Hf. fuel f. cbn [wf_e size_e] in *. cbn [emit_e read_expr].
-    rewrite Nat2Z.id. rewrite IH by (auto; lia). apply loc_finish_ok.
-  - (* ENil *) intros _ f k _. reflexivity.
-  - (* ECons *) intros e IHe es IHes Hw f k Hf. cbn [wf_es size_es] in *. destruct Hw as [H1 H2].
-    cbn [len_es emit_es read_n conv_es]. rewrite IHe by (auto; lia). rewrite IHes by (auto; lia). reflexivity.
-  - intros _ f k _. reflexivity.
-  - intros kd e IHe a IHa Hw f k Hf. cbn [wf_args size_args] in *. destruct Hw as [H1 H2].
-    cbn [len_args emit_args read_n conv_args]. rewrite IHe by (auto; lia). rewrite IHa by (auto; lia). reflexivity.
-  - intros _ f k _. reflexivity.
-  - intros op e IHe c IHc Hw f k Hf. cbn [wf_cmps size_cmps] in *. destruct Hw as [H1 H2].
-    cbn [len_cmps emit_cmps read_n conv_cmps]. rewrite IHe by (auto; lia). rewrite IHc by (auto; lia). reflexivity.
+  apply expr_all_mut; unfold Pe, Pes, Pargs, Pcmps, Poe, Pditems, Pparams.
+  - (* EName *) intros p id f k Hf. fuel f. cbn [emit_e read_expr str_k]. apply loc_finish_ok.
+  - (* EInt *) intros p v f k Hf. fuel f. cbn [emit_e read_expr int_k]. apply loc_finish_ok.
+  - (* EStr *) intros p s f k Hf. fuel f. cbn [emit_e read_expr str_k]. apply loc_finish_ok.
+  - (* EAttr *) intros p e IH a f k Hf. fuel f. cbn [size_e] in *. cbn [emit_e read_expr nconv_e].
+    rewrite IH by lia. cbn [str_k]. apply loc_finish_ok.
+  - (* ECall *) intros p fn IHf a IHa f k Hf. fuel f. cbn [size_e] in *.
+    cbn [emit_e read_expr nconv_e]. rewrite IHf by lia. red1.
+    rewrite IHa by lia. red1. rewrite read_kinds_ok. red1. rewrite read_names_ok. apply loc_finish_ok.
+  - (* EBin *) intros p op l IHl r IHr f k Hf. fuel f. cbn [size_e] in *.
+    cbn [emit_e read_expr int_k nconv_e]. rewrite read_binop_ok. rewrite IHl by lia. rewrite IHr by lia. reflexivity.
+  - (* EUnary *) intros p op e IH f k Hf. fuel f. cbn [size_e] in *.
+    cbn [emit_e read_expr int_k nconv_e]. rewrite read_unop_ok. rewrite IH by lia. apply loc_finish_ok.
+  - (* ECompare *) intros p l IHl c IHc f k Hf. fuel f. cbn [size_e] in *.
+    cbn [emit_e read_expr nconv_e]. rewrite IHl by lia. red1. rewrite read_cmpidx_ok. red1.
+    rewrite IHc by lia. red1. rewrite len_cmp_strs, len_nconv_cmps, Nat.eqb_refl. apply loc_finish_ok.
+  - (* EBoolOp *) intros p op e1 IH1 e2 IH2 rest IHr f k Hf. fuel f. cbn [size_e] in *.
+    cbn [emit_e read_expr int_k nconv_e]. rewrite read_boolop_ok. red1. cbn [read_n].
+    rewrite IH1 by lia. rewrite IH2 by lia. rewrite IHr by lia. red1. apply loc_finish_ok.
+  - (* EIfExp *) intros p t IHt b IHb o IHo f k Hf. fuel f. cbn [size_e] in *.
+    cbn [emit_e read_expr nconv_e]. rewrite IHb by lia. rewrite IHt by lia. rewrite IHo by lia. apply loc_finish_ok.
+  - (* ETuple *) intros p es IH f k Hf. fuel f. cbn [size_e] in *. cbn [emit_e read_expr nconv_e].
+    red1. rewrite IH by lia. apply loc_finish_ok.
+  - (* EList *) intros p es IH f k Hf. fuel f. cbn [size_e] in *. cbn [emit_e read_expr nconv_e].
+    red1. rewrite IH by lia. apply loc_finish_ok.
+  - (* ESet *) intros p es IH f k Hf. fuel f. cbn [size_e] in *. cbn [emit_e read_expr nconv_e].
+    red1. rewrite IH by lia. apply loc_finish_ok.
+  - (* EDict *) intros p it IH f k Hf. fuel f. cbn [size_e] in *. cbn [emit_e read_expr nconv_e]. red1.
+    destruct (IH f (T LIST_GEN :: I (Z.of_nat (len_ditems it)) :: emit_dvals it (loc_k p (T END_TAG :: k)))) as [Hk _]; [lia|].
+    rewrite Hk. red1. destruct (IH f (loc_k p (T END_TAG :: k))) as [_ Hv]; [lia|]. rewrite Hv. apply loc_finish_ok.
+  - (* ESubscript *) intros p v IHv i IHi f k Hf. fuel f. cbn [size_e] in *. cbn [emit_e read_expr nconv_e].
+    rewrite IHv by lia. rewrite IHi by lia. apply loc_finish_ok.
+  - (* ESlice *) intros p a IHa b IHb c IHc f k Hf. fuel f. cbn [size_e] in *. cbn [emit_e read_expr nconv_e].
+    rewrite IHa by lia. rewrite IHb by lia. rewrite IHc by lia. apply loc_finish_ok.
+  - (* EStar *) intros p e IH f k Hf. fuel f. cbn [size_e] in *. cbn [emit_e read_expr nconv_e].
+    rewrite IH by lia. apply loc_finish_ok.
+  - (* ELambda *) intros p ps IHps b IHb f k Hf. fuel f. cbn [size_e] in *. cbn [emit_e read_expr nconv_e]. red1.
+    rewrite IHps by lia. red1. rewrite IHb by lia. rewrite read_loc_ok. apply loc_finish_ok.
+  - (* ENil *) intros f k _. reflexivity.
+  - (* ECons *) intros e IHe es IHes f k Hf. cbn [size_es] in *.
+    cbn [len_es emit_es read_n nconv_es]. rewrite IHe by lia. rewrite IHes by lia. reflexivity.
+  - intros f k _. reflexivity.
+  - intros kd e IHe a IHa f k Hf. cbn [size_args] in *.
+    cbn [len_args emit_args read_n nconv_args]. rewrite IHe by lia. rewrite IHa by lia. reflexivity.
+  - intros f k _. reflexivity.
+  - intros op e IHe c IHc f k Hf. cbn [size_cmps] in *.
+    cbn [len_cmps emit_cmps read_n nconv_cmps]. rewrite IHe by lia. rewrite IHc by lia. reflexivity.
+  - (* ONone *) intros f k _. reflexivity.
+  - (* OSome *) intros e IH f k Hf. cbn [size_oe] in *. cbn [emit_oe read_opt nconv_oe]. rewrite IH by lia. reflexivity.
+  - (* DNil *) intros f k _. split; reflexivity.
+  - (* DCons *) intros ky IHk v IHv r IHr f k Hf. cbn [size_ditems] in *.
+    cbn [len_ditems emit_dkeys emit_dvals read_n nconv_dkeys nconv_dvals]. split.
+    + rewrite IHk by lia. destruct (IHr f k) as [H _]; [lia|]. rewrite H. reflexivity.
+    + rewrite IHv by lia. destruct (IHr f k) as [_ H]; [lia|]. rewrite H. reflexivity.
+  - (* PNil *) intros f k _. reflexivity.
+  - (* PCons *) intros p sp n kd d IHd r IHr f k Hf. cbn [size_params] in *.
+    cbn [len_params emit_params read_n nconv_params]. unfold read_param_with at 1, str_k, int_k.
+    rewrite nth_kind. rewrite IHd by lia. cbv beta iota. rewrite read_loc_ok. cbv beta iota.
+    rewrite IHr by lia. reflexivity.
 Qed.
 
-Lemma read_expr_ok : forall e, wf_e e -> forall f k, (size_e e <= f)%nat -> read_expr f (emit_e e k) = Some (conv_e e, k).
+Lemma read_expr_ok : forall e f k, (size_e e <= f)%nat -> read_expr f (emit_e e k) = Some (nconv_e e, k).
 Proof. exact (proj1 read_expr_ok_all). Qed.
-Lemma read_exprs_ok : forall es, wf_es es -> forall f k, (size_es es <= f)%nat ->
-  read_n (read_expr f) (len_es es) (emit_es es k) = Some (conv_es es, k).
+Lemma read_exprs_ok : forall es f k, (size_es es <= f)%nat ->
+  read_n (read_expr f) (len_es es) (emit_es es k) = Some (nconv_es es, k).
 Proof. exact (proj1 (proj2 read_expr_ok_all)). Qed.
+Lemma read_oe_ok : forall o f k, (size_oe o <= f)%nat -> read_opt (read_expr f) (emit_oe o k) = Some (nconv_oe o, k).
+Proof. exact (proj1 (proj2 (proj2 (proj2 (proj2 read_expr_ok_all))))). Qed.
+Lemma read_params_ok : forall ps f k, (size_params ps <= f)%nat ->
+  read_n (read_param_with (read_expr f)) (len_params ps) (emit_params ps k) = Some (nconv_params ps, k).
+Proof. exact (proj2 (proj2 (proj2 (proj2 (proj2 (proj2 read_expr_ok_all)))))). Qed.
+
+(* ---------------------------------------------------------------- the type sublanguage *)
+Fixpoint size_ty (t : ty) : nat :=
+  match t with
+  | TyName _ _ | TyNone _ => 1
+  | TySub _ _ _ a => 1 + size_tys a
+  | TyUnion _ l r => 1 + size_ty l + size_ty r
+  end%nat
+with size_tys (a : tys) : nat := match a with TNil => 0 | TCons t ts => size_ty t + size_tys ts end%nat.
+
+Scheme ty_mut := Induction for ty Sort Prop with tys_mut := Induction for tys Sort Prop.
+Combined Scheme ty_all_mut from ty_mut, tys_mut.
+
+Lemma read_ty_ok_all :
+  (forall t f k, (size_ty t <= f)%nat -> read_ty f (emit_ty t k) = Some (nconv_ty t, k)) /\
+  (forall a f k, (size_tys a <= f)%nat -> read_n (read_ty f) (len_tys a) (emit_tys a k) = Some (nconv_tys a, k)).
+Proof.
+  apply ty_all_mut.
+  - intros p n f k Hf. destruct f; [cbn in Hf; lia|]. cbn [emit_ty read_ty str_k Z.to_nat read_n nconv_ty]. apply loc_finish_ok.
+  - intros p f k Hf. destruct f; [cbn in Hf; lia|]. cbn [emit_ty read_ty str_k Z.to_nat read_n nconv_ty]. apply loc_finish_ok.
+  - intros p b tup a IH f k Hf. destruct f; [cbn in Hf; lia|]. cbn [size_ty] in Hf. cbn [emit_ty read_ty str_k nconv_ty]. red1.
+    rewrite IH by lia. apply loc_finish_ok.
+  - intros p l IHl r IHr f k Hf. destruct f; [cbn in Hf; lia|]. cbn [size_ty] in Hf. cbn [emit_ty read_ty nconv_ty].
+    change (Z.to_nat 2) with 2%nat. cbn [read_n]. rewrite IHl by lia. rewrite IHr by lia. apply loc_finish_ok.
+  - intros f k _. reflexivity.
+  - intros t IHt ts IHts f k Hf. cbn [size_tys] in Hf. cbn [len_tys emit_tys read_n nconv_tys].
+    rewrite IHt by lia. rewrite IHts by lia. reflexivity.
+Qed.
+Definition read_ty_ok := proj1 read_ty_ok_all.
+
+(* an expression never reads as a TempNode *)
+Lemma fix_temp_nconv : forall p e, fix_temp p (nconv_e e) = nconv_e e.
+Proof.
+  intros p e. destruct e; cbn [nconv_e fix_temp]; try reflexivity.
+  - unfold mk_member. destruct (nconv_e e); try reflexivity. destruct m; try reflexivity.
+    destruct (String.eqb name "super"); reflexivity.
+  - unfold mk_boolop. cbn [split_last]. destruct (split_last (nconv_e e2) (nconv_es rest)) as [i x]. reflexivity.
+Qed.
